@@ -4,9 +4,9 @@ from . import core, eng, gen, engcheck
 THEOREMS = ["derivable_between", "derivable_union_restart", "rerun_idempotent", "monotone_rerun", "wfSt_pushRows", "run_lattice_from", "lattice_rerun_idempotent"]
 TRUSTED = ["Lean 4.33.0 kernel", "axioms: propext, Classical.choice, Quot.sound only (audited per theorem)",
            "statement: Props/C13.lean (histories run;run and run;push;run from any well-formed program value, aggregation-free serial programs)",
-           "model Model/Engine.lean (index contents persist between runs; update_indices re-inserts every row) tied by compiled programs driven "
+           "model Model/Engine.lean (index contents persist between runs; update_indices rebuilds them from the rows, fix 8b2e261) tied by compiled programs driven "
            "through histories of run / push / dump",
-           "not covered by the theorems: programs with aggregation (finding F2: re-indexing duplicates Vec-index entries) and parallel programs (finding F4)"]
+           "programs with aggregation: idempotence is tied (compiled programs, run; run) and the each-once view is proved for every later run (Props/C04 second_run_agg_view_each_once); the parallel engine is covered by C02's schedule theorems, its re-run by the tie"]
 
 
 def build(rng, tier):
@@ -71,7 +71,7 @@ def build(rng, tier):
                     ops.append(f"eng push {inst} r{r}" + "".join(" " + eng.sx_tuple(t) for t in rows)); union[r] = union.get(r, []) + list(rows)
             ops += [f"eng run {inst}", f"eng dump {inst}"]; marks.append(union)
             cases.append(engcheck.Case(pid, inst, ops, {"inp": inp, "marks": marks, "kind": "lattice-history"}))
-    # programs WITH aggregation: the statement's first half (idempotence) is claimed for them too and fails (finding F2)
+    # programs WITH aggregation: the statement's first half (idempotence) is claimed for them too (failed before fix 8b2e261: finding F2)
     for i, p in enumerate(engcheck.make_programs(rng.fork("c13agg"), 3 if tier == "quick" else 12, genf=gen.gen_agg_program, filt=eng.stratifiable)):
         pid = f"ha{i}"
         progs[pid] = p
@@ -80,21 +80,19 @@ def build(rng, tier):
             inp = gen.nodup_input(rng.fork(f"{pid}h{j}"), p, max_rows=6)
             inst = f"{pid}_{j}"
             ops = [f"eng new {inst} {pid}"] + engcheck.load_ops(inst, inp) + [f"eng run {inst}", f"eng dump {inst}", f"eng run {inst}", f"eng dump {inst}"]
-            cases.append(engcheck.Case(pid, inst, ops, {"inp": inp, "marks": ["same"], "kind": "agg-rerun", "class": "F2"}))
-    # fixed witness of F2
+            cases.append(engcheck.Case(pid, inst, ops, {"inp": inp, "marks": ["same"], "kind": "agg-rerun", "was": "F2"}))
+    # witness of F2 (fixed by 8b2e261; must pass)
     w = {"rels": [{"arity": 2}, {"arity": 1}, {"arity": 2}],
          "rules": [{"heads": [(2, [("var", 0), ("var", 21)])], "body": [("cl", 1, [("v", 0)], []), ("agg", [21], "count", [], 0, [("k", ("var", 0)), "_"])]}]}
     winp = {0: [(1, 1), (1, 2), (2, 5)], 1: [(1,), (2,)]}
     progs["f2w"] = w; mods.append(("f2w", eng.rs_module("f2w", w)))
     cases.append(engcheck.Case("f2w", "f2w_0", ["eng new f2w_0 f2w"] + engcheck.load_ops("f2w_0", winp) + ["eng run f2w_0", "eng dump f2w_0", "eng run f2w_0", "eng dump f2w_0"],
-                               {"inp": winp, "marks": ["same"], "kind": "agg-rerun", "class": "F2"}))
+                               {"inp": winp, "marks": ["same"], "kind": "agg-rerun", "was": "F2"}))
     return progs, mods, cases
 
 
 def known(c, p, impl, model):
-    if c.meta.get("class") == "F2" and model is not None and impl == model:
-        return ("F2", "a second run() re-inserts every row into the Vec-backed indices; programs aggregating (count/sum) over them derive new tuples on re-run")
-    return None
+    return None      # F2 is fixed by 8b2e261 and F4 by 409a150: nothing is attributed any more
 
 
 def oracle(c, p, out):
